@@ -500,9 +500,9 @@ def compare(op, a, b):
     if isinstance(a.kind, KStr) and isinstance(b.kind, KStr) or \
             isinstance(a.kind, KAny) and isinstance(b.kind, KAny) or \
             isinstance(a.kind, KRef) and isinstance(b.kind, KRef):
-        if op == "==":
+        if op in ("==", "is"):
             return a.terms[0] == b.terms[0]
-        if op == "!=":
+        if op in ("!=", "is not"):
             return a.terms[0] != b.terms[0]
     if (isinstance(a.kind, KComplex) or isinstance(b.kind, KComplex)) and op in ("==", "!="):
         def cx(v):
